@@ -286,14 +286,43 @@ GibbsOK(c) == c.mask = 0 \/ c.nbsimu = 1
 FacAssign(nfac, nd) == {f \in [1..nd -> 1..nfac] : f[1] = 1 /\ \A c \in 1..nfac : \E i \in 1..nd : f[i] = c}
 PgsAssign(rule) == IF Quick THEN {f \in FacAssign(RuleNFac(rule), 4) : f[4] = RuleNFac(rule)} ELSE FacAssign(RuleNFac(rule), 4)
 PgsCases ==
-  {[k |-> "case", sim |-> "simpgs", rule |-> r, fac |-> f, nbsimu |-> n, seed |-> s, mask |-> mk] :
-     r \in {"S2", "ST3"}, f \in FacAssign(3, 4) \cup FacAssign(2, 4), n \in 1..Min2(MaxNbSimu, 2), s \in Seeds, mk \in SelMasks(4)}
+  {[k |-> "case", sim |-> "simpgs", rule |-> r, fac |-> f, nbsimu |-> n, seed |-> s, mask |-> mk, prop |-> pr] :
+     r \in {"S2", "ST3"}, f \in FacAssign(3, 4) \cup FacAssign(2, 4), n \in 1..Min2(MaxNbSimu, 2), s \in Seeds, mk \in SelMasks(4),
+     pr \in {"stat", "nonstat"}}
 BiPgsCases ==
-  {[k |-> "case", sim |-> "simbipgs", rule |-> r, rule2 |-> r2, fac |-> f, fac2 |-> f2, nbsimu |-> n, seed |-> s, mask |-> mk] :
-     r \in {"S2", "ST3"}, r2 \in {"S2"}, f \in FacAssign(3, 4) \cup FacAssign(2, 4), f2 \in {<<1, 2, 2, 1>>, <<2, 2, 1, 1>>},
-     n \in 1..Min2(MaxNbSimu, 2), s \in Seeds, mk \in SelMasks(4)}
-(* a selection is combined with one simulation (the storage layouts are then consistent, LayoutOK) *)
-PgsOK(c) == c.fac \in PgsAssign(c.rule) /\ (c.mask = 0 \/ c.nbsimu = 1)
+  {[k |-> "case", sim |-> "simbipgs", rule |-> r, rule2 |-> r2, fac |-> f, fac2 |-> f2, nbsimu |-> n, seed |-> s, mask |-> mk, prop |-> pr] :
+     r \in {"S2", "ST3"}, r2 \in {"S2"}, f \in FacAssign(3, 4) \cup FacAssign(2, 4),
+     f2 \in {<<1, 2, 2, 1>>, <<2, 2, 1, 1>>, <<2, 1, 1, 2>>, <<1, 1, 2, 2>>},
+     n \in 1..Min2(MaxNbSimu, 2), s \in Seeds, mk \in SelMasks(4), pr \in {"stat", "nonstat"}}
+(* a selection is combined with one simulation (the storage layouts are then consistent, LayoutOK); *)
+(* non-stationary proportions are combined with one simulation, no selection, and every facies      *)
+(* assignment (the stationary cases of the quick tier use a sub-family, two second-facies vectors)  *)
+PgsOK(c) ==
+  IF c.prop = "stat"
+  THEN c.fac \in PgsAssign(c.rule) /\ (c.mask = 0 \/ c.nbsimu = 1)
+       /\ (c.sim = "simbipgs" => c.fac2 \in {<<1, 2, 2, 1>>, <<2, 2, 1, 1>>})
+  ELSE c.fac \in FacAssign(RuleNFac(c.rule), 4) /\ c.mask = 0 /\ c.nbsimu = 1
+
+(* NON-STATIONARY proportions: a grid of proportions, vector A for x <= PropSplit, B beyond.  The  *)
+(* thresholds of the rules then vary in space (the conditioning must use, for each datum, the       *)
+(* thresholds of ITS proportions); what the property demands does not: the facies at the data are   *)
+(* the observed ones, for both variables of simbipgs.  Percent for one rule; for two rules the      *)
+(* joint table (first index fastest, per 10000) = P(f1) * P(f2 | f1), the second variable depending *)
+(* on the first.                                                                                    *)
+PropSplit == 1
+PropA(rule) == CASE rule = "S2" -> <<80, 20>> [] rule = "ST3" -> <<50, 30, 20>>
+PropB(rule) == CASE rule = "S2" -> <<20, 80>> [] rule = "ST3" -> <<10, 30, 60>>
+Cond2A(f1) == IF f1 = 1 THEN <<90, 10>> ELSE <<10, 90>>      \* P(f2 | f1) in region A
+Cond2B(f1) == IF f1 = 1 THEN <<10, 90>> ELSE <<90, 10>>      \* ... in region B
+Joint(p1, cond(_), n1) == [j \in 1..(2 * n1) |-> p1[((j - 1) % n1) + 1] * cond(((j - 1) % n1) + 1)[((j - 1) \div n1) + 1]]
+JointA(rule) == Joint(PropA(rule), Cond2A, RuleNFac(rule))
+JointB(rule) == Joint(PropB(rule), Cond2B, RuleNFac(rule))
+SumSeq(q) == LET RECURSIVE S(_) S(i) == IF i = 0 THEN 0 ELSE q[i] + S(i - 1) IN S(Len(q))
+PropFieldOK(rule) ==
+  /\ SumSeq(PropA(rule)) = 100 /\ SumSeq(PropB(rule)) = 100 /\ PropA(rule) # PropB(rule)
+  /\ SumSeq(JointA(rule)) = 10000 /\ SumSeq(JointB(rule)) = 10000
+  /\ \A j \in DOMAIN JointA(rule) : JointA(rule)[j] > 0 /\ JointB(rule)[j] > 0      \* every observed pair is possible everywhere
+  /\ Cond2A(1) # Cond2A(2)                                                            \* the second variable depends on the first
 (* product proportions of two rules (first facies index varies fastest), percent x 100 *)
 Props2(r, r2) == [j \in 1..(RuleNFac(r) * RuleNFac(r2)) |->
                     RuleProps(r)[((j - 1) % RuleNFac(r)) + 1] * RuleProps(r2)[((j - 1) \div RuleNFac(r)) + 1]]
@@ -318,7 +347,7 @@ Inv_Tgb    == st.k = "tgb" => /\ ZonesPartition(st.binf, st.bsup) /\ NoMixedSign
                               /\ (TgbKind(st.binf, st.bsup) # "swapped" => TgbWithin(st.binf, st.bsup))
 Inv_Gibbs  == st.k = "gibbs" => GibbsInBounds(st)        \* intended decay and (since 65d897251) the decay as coded
 Inv_Cond   == (st.k = "cond" /\ st.rmap = IdMap(st.R)) => CondExact(st)
-Inv_Rule   == st.k = "rule" => RuleConsistent(st.name)
+Inv_Rule   == st.k = "rule" => RuleConsistent(st.name) /\ PropFieldOK(st.name)
 (* every wrong rank map is observable: some field/data make the datum not reproduced *)
 CondSensitive == \A R \in {2} : \A m \in [1..R -> 1..R] : m # IdMap(R) =>
                    \E s \in CondStates : s.R = R /\ s.rmap = m /\ ~CondExact(s)
